@@ -51,8 +51,17 @@ Init ==
   /\ hist = <<>>
   /\ nextc = NSlots + 2
 
+\* The argument STATES in which a read-only operation is executed: the specification's prediction (nothing but the
+\* bookkeeping changes) holds in every state of the arguments, and an operation that normalises, caches or
+\* post-processes does so only in some.  Verifying: the TTL of the RRset (and of the RRSIG) equals the signature's
+\* original TTL (just signed), lies below it (the records aged in a cache), or above it (raised after signing / signed
+\* with a lower original TTL: RFC 4035 5.3.3 tells a RESOLVER to lower it -- not Verify to do so in its arguments).
+\* The verification succeeds in all three (the canonical form carries the original TTL); a fourth state makes it fail
+\* (one octet of the signature changed).
+ROStates(op) == IF op = "Verify" THEN << "ttl=orig", "ttl<orig", "ttl>orig", "bad-signature" >> ELSE << >>
+
 Rec(opname, ro, x, y, slot, T, tgt, bkmay) ==
-  [op |-> opname, ro |-> ro, x |-> x, y |-> y, slot |-> IF opname \in {"alias"} THEN 0 ELSE slot,
+  [op |-> opname, ro |-> ro, states |-> ROStates(ro), x |-> x, y |-> y, slot |-> IF opname \in {"alias"} THEN 0 ELSE slot,
    how |-> IF opname = "alias" THEN slot ELSE "",
    live  |-> SortedSeq(T.live),
    regs  |-> [o \in Obj |-> T.slots[o]],
